@@ -1228,6 +1228,22 @@ func (e *c34Env) analyse(fam, format string, s *PkgSpec, data []byte, res *c34Re
 					res.f04("ar-lean-reader-disagrees", fmt.Sprintf("the Lean ar reader answers %.200q, the Go reader found %.200q", ans, want.String()))
 				}
 			})
+			// the whole file as Package.lean assembles it (Pkg.debFile: debian-binary, control.tar.gz, the data member
+			// under its own name, then the signature member if any), with the package's own compressed archives as
+			// what the compressors return
+			if len(d.Members) == 3 || len(d.Members) == 4 {
+				sigName, sigBody := "none", "-"
+				if len(d.Members) == 4 {
+					sigName, sigBody = "some "+wire.H(d.Members[3].Name), wire.H(string(d.Members[3].Body))
+				}
+				res.Checks = append(res.Checks, "pkgdeb")
+				ask(fmt.Sprintf("pkgdeb %d %s %s %s %s %s", d.Members[0].MTime, wire.H(d.Members[2].Name), wire.H(string(d.Members[1].Body)), wire.H(string(d.Members[2].Body)), sigName, sigBody), func(ans string) {
+					got, _ := wire.UnH(ans)
+					if got != string(data) {
+						res.f04("deb-differs-from-package-model", "the deb file differs from the assembly of the package model (Pkg.debFile): "+c34FirstDiff(got, string(data)))
+					}
+				})
+			}
 		}
 		res.check(d.GlobalHeaderOK, "ar-global-header", "the file does not start with the ar global header")
 		res.check(d.Trailing == 0, "ar-trailing-bytes", "%d bytes follow the last complete ar member", d.Trailing)
@@ -1301,6 +1317,18 @@ func (e *c34Env) analyse(fam, format string, s *PkgSpec, data []byte, res *c34Re
 			fmt.Sprintf("c04ipk %s %s", c34HexList(c34EntryNames(p.Outer)), wire.H(string(p.DebianBinary))))
 		tarModel("data", p.DataTar, p.Data)
 		tarModel("outer", p.OuterTar, p.Outer)
+		// the outer archive as Package.lean assembles it (Pkg.ipkOuter: three GNU members, mode 0644, one time),
+		// with the package's own compressed inner archives as what the compressor returns
+		if len(p.OuterTar) > 0 && len(p.OuterTar) <= e.segCap/4 && len(p.Outer) == 3 && p.Outer[0].MTime >= 0 {
+			res.Checks = append(res.Checks, "pkgipkouter")
+			outer := p.OuterTar
+			ask(fmt.Sprintf("pkgipkouter %d %s %s", p.Outer[0].MTime, wire.H(string(p.ControlRaw)), wire.H(string(p.DataRaw))), func(ans string) {
+				got, _ := wire.UnH(ans)
+				if got != string(outer) {
+					res.f04("outer-tar-differs-from-package-model", "the outer tar of the ipk differs from the assembly of the package model (Pkg.ipkOuter): "+c34FirstDiff(got, string(outer)))
+				}
+			})
+		}
 		if ct, err := c34Gunzip(p.ControlRaw, true); err == nil {
 			tarModel("control", ct, p.Control)
 		}
